@@ -47,7 +47,7 @@ def run_one(seed, tier, scratch=None, max_violations=1):
         d['expect'] = {'oracle': v['oracle'], 'op': v['op'], 'step': v['step'], 'detail': v['detail']}
         out['violations'] = [dict(v, desc=d, entry=v['op'])]
     out['sample'] = {'start': desc['start'],
-                     'tables': [[t['name'], [(c['kind'] + ('[%d]' % c['len'] if c.get('len') else ''))
+                     'tables': [[t['name'], [(c['kind'] + ('[%d]' % c['len'] if c.get('len') else '') + ('[]' if c.get('var') else ''))
                                              for c in t['columns']], len(t['rows'])]
                                 for t in desc['tables']],
                      'history': abstract}
@@ -248,4 +248,5 @@ PROBES = ['append_ok', 'append_after_copy', 'append_after_raw_reread', 'append_l
           'append_after_clock_jumped_back', 'write_over_own_file', 'write_over_existing',
           'append_to_missing', 'append_after_missing_refusal_and_recreate',
           'append_string_array_column', 'append_enum_column', 'append_empty', 'write_copy',
-          'write_self_recreates_deleted_file', 'write_ndarray_over_existing']
+          'write_self_recreates_deleted_file', 'write_ndarray_over_existing', 'start_from_external_file',
+          'write_with_custom_comments', 'append_widens_variable_length_char_column']
